@@ -123,7 +123,7 @@ fn assign_value_fxn(sink: Value, source: Value) -> MResult<Box<dyn MechFunction>
     I16,    "i16";
     I32,    "i32";
     I64,    "i64";
-    U128,   "u128";
+    I128,   "i128";
     F32,    "f32";
     F64,    "f64";
     R64, "rational";
